@@ -128,7 +128,71 @@ def mk_bin(op, a, b):
         return a
     if op == "Add" and a[0] == "int" and a[1] == 0:
         return b
+    # a / n * n  is  a - a % n   (integers; one canonical spelling so that equivalent arithmetic compares equal)
+    if op == "Mul":
+        for x, y in ((a, b), (b, a)):
+            if x[0] == "bin" and x[1] == "Div" and x[3] == y:
+                return mk_bin("Sub", x[2], ("bin", "Rem", x[2], y))
+    if op in ("Add", "Sub") and (_is_addsub(a) or _is_addsub(b)):
+        r = _linear(op, a, b)
+        if r is not None:
+            return r
     return ("bin", op, a, b)
+
+
+class _NotIndexArith(Exception):
+    pass
+
+
+def _is_addsub(t):
+    return isinstance(t, tuple) and len(t) == 4 and t[0] == "bin" and t[1] in ("Add", "Sub")
+
+
+def _linear(op, a, b):
+    """canonical spelling of a nested +/- expression (no overflow/underflow, the enumerator's standing assumption):
+    positive atoms in first-occurrence order, then a positive constant, then the subtracted atoms, then a negative constant;
+    `n - back - 1` and `n - (back + 1)` both become Sub(Sub(n, back), 1), `a - (a - r)` becomes r"""
+    coef = {}
+    order = []
+    const = [0, None]
+
+    def walk(t, sign):
+        if _is_addsub(t):
+            walk(t[2], sign)
+            walk(t[3], sign if t[1] == "Add" else -sign)
+        elif t[0] == "int":
+            if t[2] not in ("usize", "_"):
+                raise _NotIndexArith()      # only index/length arithmetic is re-spelled (u8 digit values etc. keep their shape)
+            const[0] += sign * t[1]
+            const[1] = const[1] or t[2]
+        else:
+            if t not in coef:
+                coef[t] = 0
+                order.append(t)
+            coef[t] += sign
+    try:
+        walk(a, 1)
+        walk(b, 1 if op == "Add" else -1)
+    except _NotIndexArith:
+        return None
+    pos = [t for t in order for _ in range(coef[t]) if coef[t] > 0]
+    neg = [t for t in order for _ in range(-coef[t]) if coef[t] < 0]
+    c, ty = const[0], const[1] or "usize"
+    if not pos and (c < 0 or (c == 0 and neg)):
+        return None
+    if pos:
+        acc = pos[0]
+        for t in pos[1:]:
+            acc = ("bin", "Add", acc, t)
+        if c > 0:
+            acc = ("bin", "Add", acc, ("int", c, ty))
+    else:
+        acc = ("int", c, ty)
+    for t in neg:
+        acc = ("bin", "Sub", acc, t)
+    if pos and c < 0:
+        acc = ("bin", "Sub", acc, ("int", -c, ty))
+    return acc
 
 
 def mk_not(t):
@@ -155,16 +219,38 @@ def atom_of(t, truth):
         if not truth:
             op = _NEG[op]
         if op == "Lt":
-            return ("lt", a, b)
+            return _succ_norm(("lt", a, b))
         if op == "Le":
-            return ("le", a, b)
+            return _succ_norm(("le", a, b))
         if op == "Gt":
-            return ("lt", b, a)
+            return _succ_norm(("lt", b, a))
         if op == "Ge":
-            return ("le", b, a)
+            return _succ_norm(("le", b, a))
         x, y = sorted([a, b], key=repr)
         return ("eq" if op == "Eq" else "ne", x, y)
     return ("holds" if truth else "nholds", t)
+
+
+def _plus_one(t):
+    if isinstance(t, tuple) and len(t) == 4 and t[0] == "bin" and t[1] == "Add":
+        if t[3][0] == "int" and t[3][1] == 1:
+            return t[2]
+        if t[2][0] == "int" and t[2][1] == 1:
+            return t[3]
+    return None
+
+
+def _succ_norm(a):
+    """integers, no overflow (the enumerator's standing assumption): x < y+1 is x <= y, and x+1 <= y is x < y"""
+    if a[0] == "lt":
+        y = _plus_one(a[2])
+        if y is not None:
+            return ("le", a[1], y)
+    if a[0] == "le":
+        x = _plus_one(a[1])
+        if x is not None:
+            return ("lt", x, a[2])
+    return a
 
 
 def atom_neg(a):
@@ -375,6 +461,12 @@ def model_call(path, args):
         t = _is_unsigned_num(path, nm) or _is_signed_num(path, nm)
         if t:
             return [((), ("agg", "tuple", mk_bin(op, args[0], args[1]), ("ovf", op, args[0], args[1])))]
+    for nm, op in (("checked_add", "Add"), ("checked_mul", "Mul")):
+        t = _is_unsigned_num(path, nm) or _is_signed_num(path, nm)
+        if t:
+            flag = ("ovf", op, args[0], args[1])
+            return [((("nholds", flag),), ("agg", "adt:core::option::Option::Some#1", mk_bin(op, args[0], args[1]))),
+                    ((("holds", flag),), ("agg", "adt:core::option::Option::None#0"))]
     for nm, op in (("wrapping_add", "Add"), ("wrapping_sub", "Sub")):
         t = _is_unsigned_num(path, nm)
         if t:
@@ -843,7 +935,9 @@ class Enumerator:
         prog = self.opts.program
         if prog is not None and path not in self.opts.opaque and self.depth < self.opts.max_depth:
             cb = None
-            if path in self.opts.inline or self.opts.inline_all_loopfree:
+            if path in self.opts.inline or self.opts.inline_all_loopfree or (
+                    callee.get("krate") in WORKSPACE and KNOWN_FNS and path not in KNOWN_FNS):
+                # (a workspace function the reference tables have never heard of is a helper extracted later: look inside)
                 # the raw def path is the cross-crate join key; the pretty path is the fall-back
                 cb = prog.by_raw(callee.get("raw", ""))
                 if cb is None:
@@ -901,6 +995,20 @@ class Enumerator:
 
 
 DISCR = {}
+WORKSPACE = ("konst", "konst_kernel", "konst_proc_macros")
+
+
+def _load_known():
+    import os
+    f = os.path.join(os.path.dirname(__file__), "known_fns.txt")
+    try:
+        with open(f) as fh:
+            return frozenset(l.strip() for l in fh if l.strip())
+    except OSError:
+        return frozenset()
+
+
+KNOWN_FNS = _load_known()
 
 
 _CORE_MODS = ("ptr", "mem", "slice", "str", "option", "result", "cmp", "num", "char", "marker", "ops", "intrinsics", "array", "ffi")
